@@ -203,6 +203,7 @@ func (o *functionOperator) Next(ctx context.Context) ([]model.StepVector, error)
 			vectors[batchIndex].SampleIDs = append(vector.SampleIDs[:0], 0)
 			continue
 		}
+		j := 0
 		for i := range vector.Samples {
 			o.pointBuf[0].V = vector.Samples[i]
 			// Call function by separately passing major input and scalars.
@@ -213,8 +214,16 @@ func (o *functionOperator) Next(ctx context.Context) ([]model.StepVector, error)
 				ScalarPoints: o.scalarPoints[batchIndex],
 			})
 
-			vector.Samples[i] = result.V
+			// The function has no output for this sample (e.g. clamp with max < min).
+			if result.Point == InvalidSample.Point {
+				continue
+			}
+			vector.Samples[j] = result.V
+			vector.SampleIDs[j] = vector.SampleIDs[i]
+			j++
 		}
+		vectors[batchIndex].Samples = vector.Samples[:j]
+		vectors[batchIndex].SampleIDs = vector.SampleIDs[:j]
 	}
 
 	return vectors, nil
